@@ -40,4 +40,47 @@ theorem rel_replicate_fwd (j a : Nat) (rest : List Move) :
     simp only [List.replicate_succ, List.cons_append, rel]
     rw [ih]; congr 1; omega
 
+theorem rel_all_fwd : ∀ (ms : List Move) (a : Nat), ms.all Move.isFwd = true → ∃ a', rel ms a = some a' ∧ a ≤ a' := by
+  intro ms
+  induction ms with
+  | nil => intro a _; exact ⟨a, rfl, Nat.le_refl _⟩
+  | cons m ms ih =>
+    intro a h
+    simp only [List.all_cons, Bool.and_eq_true] at h
+    cases m with
+    | fwd k =>
+      obtain ⟨a', h1, h2⟩ := ih (a + k) h.2
+      exact ⟨a', by simpa [rel] using h1, by omega⟩
+    | back k => simp [Move.isFwd] at h
+
+theorem scanRun_spec (size : Nat) (step : Nat → Option Nat) (hp : ∀ c c', step c = some c' → c < c') :
+    ∀ (fuel c n : Nat), size - c ≤ fuel →
+      scanRun size step fuel c n ≠ .outOfFuel ∧
+        ∀ c' n', scanRun size step fuel c n = .done c' n' → size ≤ c' ∧ c ≤ c' ∧ n' ≤ n + (size - c) := by
+  intro fuel
+  induction fuel with
+  | zero =>
+    intro c n hf
+    have : ¬ c < size := by omega
+    simp only [scanRun, this, if_false]
+    refine ⟨by simp, ?_⟩
+    intro c' n' h; injection h with e1 e2; omega
+  | succ fuel ih =>
+    intro c n hf
+    unfold scanRun
+    split
+    · rename_i hlt
+      cases hs : step c with
+      | none => simp
+      | some c1 =>
+        simp only
+        have g := hp c c1 hs
+        obtain ⟨i1, i2⟩ := ih c1 (n + 1) (by omega)
+        refine ⟨i1, ?_⟩
+        intro c' n' h
+        have := i2 c' n' h
+        omega
+    · refine ⟨by simp, ?_⟩
+      intro c' n' h; injection h with e1 e2; omega
+
 end SqlglotModel.ScanProgress
